@@ -113,6 +113,57 @@ def multi_file_cases():
     return out
 
 
+def two_package_runs(ctx):
+    """one run that emits two Go packages, each declaring a validated type of the same name (`Item`): the required keys of each package's own
+    type are enforced - in the package's own root and where the other package refers to it - whichever file is visited first"""
+    from vlib.progs import Batch
+    b = Batch(ctx, "c04pk")
+    meta = []
+    n = 0
+    for names in (("Item", "Item"), ("Item", "Entry")):
+        na, nb = names
+        A = {"$id": "http://x/a", "type": "object", "definitions": {na: {"type": "object", "properties": {"name": {"type": "string"}, "w": {"type": "integer"}}, "required": ["name"]}},
+             "properties": {"item": {"$ref": "#/definitions/" + na}, "ext": {"$ref": "b.json#/definitions/" + nb}}}
+        B = {"$id": "http://x/b", "type": "object", "definitions": {nb: {"type": "object", "properties": {"code": {"type": "string"}, "qty": {"type": "integer"}}, "required": ["code"]}},
+             "properties": {"first": {"$ref": "#/definitions/" + nb}}}
+        for argv in (["a.json"], ["a.json", "b.json"], ["b.json", "a.json"]):
+            cid = "c04pk%d" % n
+            n += 1
+            cfg = {"tags": ["json", "yaml", "mapstructure"], "default_package": "prog/%s/pa" % cid, "default_output": cid + "/pa/gen.go",
+                   "mappings": [{"id": "http://x/a", "root": "", "package": "prog/%s/pa" % cid, "output": cid + "/pa/gen.go"},
+                                {"id": "http://x/b", "root": "", "package": "prog/%s/pb" % cid, "output": cid + "/pb/gen.go"}]}
+            jobs = []
+            for t, doc, want in ((cid + "/pa.AJson", {"item": {"name": "n"}, "ext": {"code": "c"}}, "ACC"), (cid + "/pa.AJson", {"item": {"name": "n"}, "ext": {"qty": 1}}, "REJ"),
+                                 (cid + "/pa.AJson", {"item": {"w": 1}, "ext": {"code": "c"}}, "REJ"), (cid + "/pa." + na, {"w": 2}, "REJ"), (cid + "/pa." + na, {"name": "n"}, "ACC"),
+                                 (cid + "/pb." + nb, {"qty": 2}, "REJ"), (cid + "/pb." + nb, {"code": "c"}, "ACC"),
+                                 (cid + "/pb.BJson", {"first": {"qty": 2}}, "REJ"), (cid + "/pb.BJson", {"first": {"code": "c", "qty": 2}}, "ACC")):
+                if t.endswith("BJson") and argv == ["a.json"]:
+                    continue          # the root of b.json is generated only when b.json is an argument
+                jobs.append({"t": t, "doc": json.dumps(doc), "wire": "json", "prior": "", "want": want})
+            c = b.add({"id": cid, "cfg": cfg, "files": {"a.json": json.dumps(A), "b.json": json.dumps(B)}, "argv": argv, "jobs": jobs})
+            meta.append((c, names, argv))
+    b.run()
+    nv = 0
+    for c, names, argv in meta:
+        r = {"kind": "batch", "cfg": c["cfg"], "files": c["files"], "argv": c["argv"]}
+        if not c["gen"].get("ok") or not c["build_ok"]:
+            if nv < 3:
+                ctx.violation("oracle", dict(r, gen=c["gen"].get("err"), build_err=c["build_err"]), "two packages in one run (%s): generation failed or the output does not build: %s"
+                              % (names, (c["gen"].get("err") or c["build_err"] or "")[:300]))
+            nv += 1
+            continue
+        ctx.cov["programs"] += 1
+        for j in c["jobs"]:
+            o = j.get("obs") or {}
+            ctx.count({"names": names, "argv": argv, "t": j["t"].split("/", 1)[1], "d": j["doc"]}, True, "required properties/two-packages")
+            if o.get("v") != j["want"]:
+                if nv < 3:
+                    ctx.violation("oracle", dict(r, type=j["t"], doc=j["doc"], impl=o), "two packages in one run (%s, arguments %s): %s decoding %s should be %s, the generated code answers %s %s"
+                                  % (names, argv, j["t"].split("/", 1)[1], j["doc"], j["want"], o.get("v"), (o.get("err") or "")[:150]))
+                nv += 1
+    return nv
+
+
 CLASSES = {"required", "required-default", "optional-absent", "null-allowed", "valid"}
 
 
@@ -159,6 +210,7 @@ def run(ctx):
         for d in c.docs:
             if d["cls"] == "required-default":
                 d["cls"] = "required-default"
+    two_package_runs(ctx)
     mf = multi_file_cases()
     from vlib.overlay import overlay_cases
     ov = overlay_cases("required", "c04")
